@@ -220,3 +220,70 @@ def single_faults(sc, base_obs, kinds=KINDS):
             sc2["ops"] = [{"op": "reconcile", "faults": [f]}]
             out.append(sc2)
     return out
+
+
+def gen_rollout(rng, tmpls=(1, 2, 3)):
+    """structured snapshots of a rolling update / scale operation in flight: coherent revisions and status,
+    mostly healthy pods, a few odd ones (terminating-but-ready, unready, failed, pending), optional slots"""
+    init_hashes()
+    a, b = rng.sample(list(tmpls), 2)
+    s = mkset()
+    s["tmpl"] = b
+    s["replicas"] = rng.choice([2, 3, 3, 4, 5])
+    s["policy"] = rng.choice(["OrderedReady", "Parallel", "Parallel"])
+    s["strategy"] = "RollingUpdate" if rng.random() < 0.85 else "OnDelete"
+    r = rng.random()
+    s["rolling"] = {"partition": rng.choice([0, 0, 1, 2, s["replicas"]])} if r < 0.75 else (None if r < 0.9 else {"partition": None})
+    slots = []
+    if rng.random() < 0.4:
+        slots = sorted(set(rng.randint(0, s["replicas"] + 1) for _ in range(rng.choice([1, 1, 2]))))
+        s["ann"] = {"delete-slots": json.dumps(slots)}
+    s["claims"] = rng.choice([[], [], ["data"]])
+    old, new = revname(a), revname(b)
+    revs = [mkrev(old, 1, a, hashlabel=HASH[(a, 0)]), mkrev(new, 2, b, hashlabel=HASH[(b, 0)])]
+    if rng.random() < 0.25:
+        c = [k for k in tmpls if k not in (a, b)][0]
+        revs.insert(0, mkrev(revname(c), 0, c, hashlabel=HASH[(c, 0)]))
+        for i, rv in enumerate(revs):
+            rv["revision"] = i + 1
+    if rng.random() < 0.12:
+        revs = revs[:-1]                      # the update revision does not exist yet
+    from props.c01 import first_free
+    desired = first_free(s["replicas"], set(slots))
+    k_new = rng.randint(0, len(desired))     # how many of the top ordinals are already updated
+    pods = []
+    for idx, o in enumerate(desired):
+        if rng.random() < 0.08:
+            continue
+        rv = new if idx >= len(desired) - k_new else old
+        if rng.random() < 0.06:
+            rv = revs[0]["name"]
+        h = rng.random()
+        if h < 0.72:
+            pods.append(mkpod(o, rv, claims=s["claims"], tmpl=b if rv == new else a))
+        elif h < 0.80:
+            pods.append(mkpod(o, rv, "Running", True, True, claims=s["claims"]))      # terminating but still ready
+        elif h < 0.87:
+            pods.append(mkpod(o, rv, "Running", False, claims=s["claims"]))
+        elif h < 0.92:
+            pods.append(mkpod(o, rv, "Pending", False, claims=s["claims"]))
+        elif h < 0.96:
+            pods.append(mkpod(o, rv, rng.choice(["Failed", "Succeeded"]), False, claims=s["claims"]))
+        else:
+            pods.append(mkpod(o, rv, "Running", False, True, claims=s["claims"]))
+    extra = [o for o in range(0, s["replicas"] + 3) if o not in desired]
+    for o in extra:
+        if rng.random() < 0.25:
+            h = rng.random()
+            pods.append(mkpod(o, rng.choice([old, new]), "Running", h < 0.8, h > 0.9, claims=s["claims"]))
+    st = s["status"]
+    st.update(replicas=len(pods), ready=sum(1 for p in pods if p["ready"]), current=sum(1 for p in pods if p["rev"] == old),
+              updated=sum(1 for p in pods if p["rev"] == new), currentRevision=old, updateRevision=new if len(revs) >= 2 and revs[-1]["name"] == new else old,
+              observedGeneration=s["gen"], collisionCount=0)
+    if rng.random() < 0.15:
+        st["current"] = rng.randint(0, 5)
+    claims = sorted({v["claim"] for p in pods for v in p["vols"] if v["claim"]})
+    api = mkworld(s, pods, revs, claims)
+    cache = copy.deepcopy(api)
+    cache["revs"] = []
+    return scenario(api, cache, tmpls=tmpls)
